@@ -145,3 +145,24 @@ CHECKS["C17"] = dict(
              crash_is_violation=True),
     ],
 )
+
+CHECKS["C08"] = dict(
+    pkg="c08", level="exploration",
+    rule=("rapid-generated histories (0..2 static bootstrap services, then 1..40 steps over services {a,b,c} and a never-added 'd') of "
+          "dependency updates (added/removed lists, also both), service-config updates (an invalid first config, six valid variants), "
+          "endpoint updates with generated added/removed lists over 6 addresses x {main,backup} (same address in both lists, removals "
+          "before additions, duplicates, empty lists, unknown service) driven into the real config store through the verif wrappers of "
+          "its three update handlers, and a pace action: the harness sits between the store's event channel and the unbuffered channel "
+          "handed to the real controller, forwarding 0..6 events per pace step (the store runs ahead by up to ~28 events). Processors "
+          "are recorded through the public registry (proc.RegisterBuilder(MySQL, recorder)). Oracle at quiescence (all events forwarded, "
+          "two sentinel events taken): model = fold of the history (dependency set; latest config; endpoint set by address, removals then "
+          "additions); store view (MarshalJSON) == model; running processors == {s: valid config and endpoints known}; each processor's "
+          "config is the latest object and its folded host set == latest endpoint set; exactly one running processor per service; no call "
+          "after Stop. Non-trivial: an endpoint update with both lists hit a running service, or a dependency was removed and re-added, "
+          "or the controller lagged >= 2 events. Distinct by canonical JSON of the history."),
+    assumptions=["invalid configurations are generated only before a service's first valid one (what should happen to a running processor on an invalid update is not stated)",
+                 "a service that has only ever received removal-only endpoint updates is accepted with or without a processor (ambiguous in the statement)"],
+    parts=[
+        dict(name="converge", test="TestConverge", kind="rapid", checks={"quick": 2500, "thorough": 100000}, shards=16, timeout={"quick": 600, "thorough": 3000}),
+    ],
+)
